@@ -835,7 +835,8 @@ def _init_designation(o):
         return True                                                   # static bit-field: unit address, unit width, mask, shift
     if k.startswith('R05.1:'):
         # the sub-object each back end descends into / assigns to: element i at i * sizeof(element), member at its offset, the chosen union member
-        return any(f in k for f in (':write_gvar_data:', ':create_lvar_init:', ':init_desg_expr:')) and '-valued-initializer' not in k
+        # (an aggregate-valued initializer expression: only the copy of an already computed image - destination, length, shifted relocations)
+        return any(f in k for f in (':write_gvar_data:', ':create_lvar_init:', ':init_desg_expr:')) and ('-valued-initializer' not in k or '/image-cop' in k)
     if k.startswith('R05.2:'):
         return ':write_gvar_data:scalar' in k or ':create_lvar_init:scalar' in k      # address and width of the store of a scalar sub-object
     if k.startswith('R05.7:'):
@@ -951,7 +952,9 @@ def run(P, rep, tier):
                        'and masks are compared with the formulas C11/psABI prescribe. Member lookup is decided by interpretation of get_struct_member. '
                        'R04.17 decides by an origin analysis over the typed AST of parse.c (flow-insensitive, calls substituted, parameters resolved at the call sites) that the hidden frame '
                        'object a lowering attaches to a tree is never one taken from persistent parser state, so that two live sites never share bytes; it does not decide liveness itself. '
-                       'R04.6 and R04.18 re-issue the clauses of C03 R03.10 (single evaluation of the op= lvalue) and C08 R08.4 (_Alignas reaches the object).')
+                       'R04.6 and R04.18 re-issue the clauses of C03 R03.10 (single evaluation of the op= lvalue) and C08 R08.4 (_Alignas reaches the object). '
+                       'R04.19 (members inside the aggregate: C08 R08.3 layout steps of struct_decl and union_decl), R04.20 (home of static-storage objects: size and alignment emitted by emit_data, C15 R15.1) and '
+                       'R04.21 (initialising stores designate their sub-object relative to the enclosing one, C05 R05.1-R05.5/R05.7) re-issue the clauses of those properties that state where an object or sub-object lives.')
     rep.assumptions += ['gen_addr of a child leaves its address in %rax (contract, proved per kind by R04.4)', 'host arithmetic on layout fields is tracked as 64-bit unless the C type of the expression is narrower']
     r_load_store(cg, rep)
     r_aggregate_value(cg, rep)
